@@ -18,6 +18,8 @@ fn escape_go_string(value: &str) -> String {
             '\n' => escaped.push_str("\\n"),
             '\r' => escaped.push_str("\\r"),
             '\t' => escaped.push_str("\\t"),
+            // Go rejects a raw byte order mark anywhere but at the start of the file
+            '\u{feff}' => escaped.push_str("\\ufeff"),
             other if (other as u32) < 0x20 || other == '\u{7f}' => {
                 escaped.push_str(&format!("\\x{:02x}", other as u32))
             }
